@@ -1,5 +1,6 @@
 //! `sut`: the system-under-test driver. One subcommand per engine.
 
+mod c10;
 mod c11;
 mod enc;
 mod natives;
@@ -152,6 +153,7 @@ fn main() {
     match cmd {
         "run" => cmd_run(),
         "gcsweep" => cmd_gcsweep(),
+        "c10api" => c10::cmd(),
         "c11" => c11::cmd(),
         _ => {
             eprintln!("usage: sut <run|...>");
